@@ -49,8 +49,11 @@ class FakeS3:
                 h(op, kw, resp)
 
     def _stamp(self, k):
-        self.meta[k] = {"ETag": '"%s-%d"' % (hashlib.md5(self.objects[k]).hexdigest()[:8], next(self._ctr)),
-                        "LastModified": self.clock()}
+        # content_etags=True is faithful to S3 (single-part ETag = MD5 of the content: identical bytes -> identical ETag);
+        # the default adds a write counter (every write gets a new tag), which is what the other scenarios assume
+        tag = hashlib.md5(self.objects[k]).hexdigest() if getattr(self, "content_etags", False) \
+            else "%s-%d" % (hashlib.md5(self.objects[k]).hexdigest()[:8], next(self._ctr))
+        self.meta[k] = {"ETag": '"%s"' % tag, "LastModified": self.clock()}
 
     def get_object(self, **kw):
         self.log.append(("get_object", kw.get("Key"), kw.get("Range")))
